@@ -222,6 +222,35 @@ def schema(chk, repo, pid):
         ok = len(rets) == 1 and any(v.eq(v.ev.term(rets[0].value, at=rets[0]), v.spec(t_)) for t_ in texts)
         chk.ob(f"schema::{REGION}.{name}", ok, f"{pid}.schema",
                f"the getter returns `{v.src(rets[0].value) if rets else '?'}`; expected {texts[0]}", v.f, rets[0] if rets else None)
+    # the value domain of the state: a numeric type test in a constructor or setter names the abstract numeric types, so that
+    # the numpy scalars every reader hands back (h5py attributes, array elements) are what the documentation says they are
+    n_tests = 0
+    for cls, table in SCHEMA.items():
+        if (cls, "*") in skip:
+            continue
+        for q in [f"{cls}.__init__"] + [f"{cls}.{name}.setter" for name in table if (cls, name) not in skip]:
+            if q not in repo.funcs:
+                continue
+            v = FV(repo, q)
+            bad = []
+            for n in ast.walk(v.f.node):
+                if isinstance(n, ast.Call) and isinstance(n.func, ast.Name) and n.func.id == "isinstance" and len(n.args) == 2:
+                    members = n.args[1].elts if isinstance(n.args[1], ast.Tuple) else [n.args[1]]
+                    texts = [ast.unparse(m) for m in members]
+                    abstract = {t_ for t_ in texts if t_.startswith("numbers.") or t_ in ("np.number", "np.integer", "np.floating",
+                                                                                         "np.generic", "np.complexfloating")}
+                    concrete = {t_ for t_ in texts if t_ in ("int", "float", "complex")}
+                    if abstract or concrete:
+                        n_tests += 1
+                    if concrete and not abstract:
+                        bad.append(n)
+            chk.ob(f"schema::{q}::numeric-type-tests", not bad, f"{pid}.schema",
+                   "numeric type tests name the abstract numeric types (numbers.*)" if not bad else
+                   f"`{v.src(bad[0])}` refuses numpy scalars (np.int64 / np.float64 are no instances of the builtin types): a "
+                   "value that was accepted on construction is refused when a reader or a transformation hands it back",
+                   v.f, bad[0] if bad else None)
+    if (REGION, "*") not in skip:
+        chk.require(n_tests >= 6, f"only {n_tests} numeric type tests found in the constructors and setters")
     if ("helpers", "*") in skip:
         return
     # dimension name -> axis number
